@@ -385,6 +385,11 @@ def slice_text(scala_file, names, within=None, sep='\n\n') -> str:
     return sep.join(slice_defs(scala_file, names, within))
 
 
+def whole_file(scala_file) -> str:
+    """The current text of a repository source file, unchanged (its own package clause and imports included)."""
+    return source_path(scala_file).read_text(encoding='utf-8')
+
+
 def whole_file_body(scala_file) -> str:
     """The file minus its `package` clause and imports (for files that are sliced whole)."""
     sc = scan_file(scala_file)
